@@ -396,9 +396,25 @@ def code3(fn):
         return 2
 
 
+# what the last run_match / run_verdict_direct learnt by calling the real function TWICE with the very same
+# expected / actual objects (no fresh copies in between): the second verdict, and whether an input was modified
+PURITY = {}
+
+
+def _twice(call, expected, actual):
+    """call() uses `expected` and `actual` by reference; returns the first verdict"""
+    before = (repr(expected), repr(actual))
+    v1 = code3(call)
+    v2 = code3(call)
+    PURITY.clear()
+    PURITY.update(again=v2, expected_changed=repr(expected) != before[0], actual_changed=repr(actual) != before[1])
+    return v1
+
+
 def run_match(t, a, as_set=False):
     from koreo.function_test import run
-    return code3(lambda: run._validate_match(copy.deepcopy(t), copy.deepcopy(a), compare_list_as_set=as_set).match)
+    te, ae = copy.deepcopy(t), copy.deepcopy(a)
+    return _twice(lambda: run._validate_match(te, ae, compare_list_as_set=as_set).match, te, ae)
 
 
 def mk_outcome(item):
@@ -446,12 +462,14 @@ def run_verdict_direct(asrt, obs):
     from koreo.function_test import run
     kind, e = asrt
     actual = mk_outcome(obs["actual"])
+    PURITY.clear()
+    ee = copy.deepcopy(e)
     if kind == "return":
-        return code3(lambda: run._validate_return_match(expected=copy.deepcopy(e), actual=actual).test_pass)
+        return _twice(lambda: run._validate_return_match(expected=ee, actual=actual).test_pass, ee, None)
     if kind == "resource":
-        return code3(lambda: run._validate_resource_match(
-            expected=copy.deepcopy(e), materialized=copy.deepcopy(obs["mat"]) if obs["called"] else None,
-            actual_outcome=actual).test_pass)
+        mat = copy.deepcopy(obs["mat"]) if obs["called"] else None
+        return _twice(lambda: run._validate_resource_match(expected=ee, materialized=mat, actual_outcome=actual).test_pass,
+                      ee, mat)
     if kind == "outcome":
         return code3(lambda: run._validate_outcome_match(expected=mk_outcome(e), actual=actual).test_pass)
     raise ValueError(kind)
@@ -907,6 +925,10 @@ def gen_function(rng, intent=None):
     """a Function spec, base inputs and optional current resource, built for an intended behaviour"""
     fkind, mode, policy, state = intent if intent else rng.choice(INTENTS)
     payload = e2e_json(rng, 2, top_dict=True)
+    # something a compare directive applies to: a list of distinct scalars, a list of named objects
+    payload["zones"] = rng.sample(["a", "b", "c", "eu-1", 7, 12], rng.choice([2, 3, 4]))
+    payload["ports"] = [{"name": n, "port": rng.choice([80, 443, 8080]), "opts": {"roles": rng.sample(["reader", "writer", "admin"], 2)}}
+                        for n in rng.sample(["http", "https", "metrics", "grpc"], rng.choice([2, 3]))]
     pre = [
         {"assert": "=inputs.mode != 'skip'", "skip": {"message": "User disabled the Function"}},
         {"assert": "=inputs.mode != 'depSkip'", "depSkip": {"message": "Waiting on Dependency"}},
@@ -966,21 +988,49 @@ async def prepare_fut(fn):
                                          spec=copy.deepcopy(fn["spec"]))
 
 
-async def run_tests(fn, test_cases):
-    """prepare + run a real FunctionTest; returns (results, recorder) or raises"""
+class PrepareFailed:
+    def __init__(self, message):
+        self.message = message
+
+
+async def prepare_tests(fn, test_cases):
+    """the real prepared FunctionTest, or a PrepareFailed"""
     from koreo import result
-    from koreo.function_test import prepare, run
+    from koreo.function_test import prepare
     spec = {"functionRef": {"kind": fn["fkind"], "name": "fut"}, "inputs": copy.deepcopy(fn["inputs"]),
             "testCases": copy.deepcopy(test_cases)}
     if fn["current"] is not None:
         spec["currentResource"] = copy.deepcopy(fn["current"])
     prepared = await prepare.prepare_function_test("c19", spec)
     if not result.is_unwrapped_ok(prepared):
-        return ("prepare-failed", getattr(prepared, "message", None)), None, None
-    ft, _ = prepared
+        return PrepareFailed(getattr(prepared, "message", None))
+    return prepared[0]
+
+
+async def run_tests(fn, test_cases, repeat=False):
+    """prepare + run a real FunctionTest; returns (result, recorder, prepared test, later results).
+    repeat: the SAME prepared object is run again, then another FunctionTest runs, then it is run a third time
+    (a prepared FunctionTest is cached and re-evaluated); `later results` are those of runs 2 and 3."""
+    from koreo.function_test import run
+    ft = await prepare_tests(fn, test_cases)
+    if isinstance(ft, PrepareFailed):
+        return ("prepare-failed", ft.message), None, None, []
     with Recorder() as rec:
         res = await run.run_function_test("c19", ft)
-    return res, rec, ft
+    later = []
+    if repeat:
+        later.append(await run.run_function_test("c19", ft))
+        other = await prepare_tests(fn, [{"variant": True, "expectOutcome": {"ok": {}}},
+                                         {"variant": True, "expectReturn": {"x-koreo-compare-as-set": ["zz"], "zz": [2, 1]}}])
+        if not isinstance(other, PrepareFailed):
+            await run.run_function_test("c19-other", other)
+        later.append(await run.run_function_test("c19", ft))
+    return res, rec, ft, later
+
+
+def assertion_snapshot(ft):
+    """the assertion objects of a prepared FunctionTest, as text (to see whether running rewrites them)"""
+    return [repr(tuple(tc.assertion)) for tc in ft.test_cases]
 
 
 def reset_koreo():
@@ -1015,6 +1065,78 @@ def case_variants(s):
     return [s, s.lower(), s.upper(), s.swapcase()]
 
 
+def reordered(rng, l):
+    sh = list(l)
+    for _ in range(10):
+        rng.shuffle(sh)
+        if any(not strict_equal(x, y) for x, y in zip(sh, l)):
+            break
+    return sh
+
+
+def with_directives(rng, doc):
+    """(description of `doc` that relies on compare directives: every list of >=2 distinct scalars is listed in
+    another order under x-koreo-compare-as-set, every list of >=2 objects with distinct `name`s in another order under
+    x-koreo-compare-as-map; number of lists so treated).  Recurses through objects and through the mapped items."""
+    n = 0
+
+    def walk(d):
+        nonlocal n
+        out, sets, maps = {}, [], {}
+        for k, v in d.items():
+            if isinstance(v, dict):
+                out[k] = walk(v)
+            elif isinstance(v, list) and len(v) >= 2 and all(not isinstance(x, (list, dict)) for x in v) \
+                    and all(not strict_equal(v[i], v[j]) for i in range(len(v)) for j in range(i)):
+                out[k] = reordered(rng, v)
+                sets.append(k)
+                n += 1
+            elif isinstance(v, list) and len(v) >= 2 and all(isinstance(x, dict) and isinstance(x.get("name"), str) for x in v) \
+                    and len({x["name"].strip() for x in v}) == len(v) and not any(x["name"].strip() in DIRECTIVES for x in v):
+                out[k] = reordered(rng, [walk(x) for x in v])
+                maps[k] = ["name"]
+                n += 1
+            else:
+                out[k] = copy.deepcopy(v)
+        if sets:
+            out["x-koreo-compare-as-set"] = sets
+        if maps:
+            out["x-koreo-compare-as-map"] = maps
+        return out
+
+    return walk(doc), n
+
+
+def break_directed(rng, desc):
+    """one member of one directed list of the description changed: (desc', label) or None"""
+    spots = []
+
+    def walk(d, p):
+        for k in d.get("x-koreo-compare-as-set", []):
+            spots.append((p + (k,), "set"))
+        for k in d.get("x-koreo-compare-as-map", {}):
+            spots.append((p + (k,), "map"))
+            for i, it in enumerate(d[k]):
+                walk(it, p + (k, i))
+        for k, v in d.items():
+            if isinstance(v, dict) and k not in DIRECTIVES:
+                walk(v, p + (k,))
+
+    walk(desc, ())
+    if not spots:
+        return None
+    p, kind = rng.choice(spots)
+    lst = list(get_at(desc, p))
+    i = rng.randrange(len(lst))
+    if kind == "set":
+        lst[i] = "never-a-member"
+        return set_at(desc, p, lst), "directive-set-member-changed"
+    it = dict(lst[i])
+    it["port"] = 1 if it.get("port") != 1 else 2
+    lst[i] = it
+    return set_at(desc, p, lst), "directive-map-item-changed"
+
+
 def derive_assertions(rng, beh):
     """[(testCase fragment, model assertion, truth, label)] for one observed behaviour"""
     out = []
@@ -1023,6 +1145,13 @@ def derive_assertions(rng, beh):
     if a[0] == "Val" and isinstance(a[1], dict) and a[1] and not has_directive_key(a[1]):
         val = a[1]
         out.append(({"expectReturn": numeric_twin(rng, copy.deepcopy(val))}, True, "return-truthful"))
+        desc, n = with_directives(rng, val)
+        if n:
+            out.append(({"expectReturn": desc}, True, "return-truthful-directive"))
+            for _ in range(2):
+                br = break_directed(rng, desc)
+                if br:
+                    out.append(({"expectReturn": br[0]}, False, f"return-{br[1]}"))
         for _ in range(5):
             pr = perturb(rng, val, allow_root_retype=False)
             if pr and isinstance(pr[0], dict) and pr[0] and not strict_equal(pr[0], val):
@@ -1036,6 +1165,13 @@ def derive_assertions(rng, beh):
         if beh["called"] and not beh["deleted"]:
             tr = truthful_strip(beh["mat"])
             out.append(({"expectResource": numeric_twin(rng, copy.deepcopy(tr))}, True, "resource-truthful"))
+            desc, n = with_directives(rng, tr)
+            if n:
+                out.append(({"expectResource": desc}, True, "resource-truthful-directive"))
+                for _ in range(2):
+                    br = break_directed(rng, desc)
+                    if br:
+                        out.append(({"expectResource": br[0]}, False, f"resource-{br[1]}"))
             for _ in range(6):
                 pr = perturb(rng, tr, allow_root_retype=False)
                 if pr and isinstance(pr[0], dict) and pr[0] and not strict_equal(pr[0], tr):
@@ -1130,7 +1266,7 @@ def e2e_cases(ctx: Ctx):
                     ctx.count("e2e:function-not-prepared")
                     continue
                 probe = {"variant": True, "expectOutcome": {"ok": {}}}
-                res, rec, _ = loop.run_until_complete(run_tests(fn, [probe]))
+                res, rec, _, _ = loop.run_until_complete(run_tests(fn, [probe]))
                 if rec is None or len(rec.results) != 1:
                     ctx.count("e2e:probe-failed")
                     continue
@@ -1140,11 +1276,15 @@ def e2e_cases(ctx: Ctx):
                        "current": fn["current"]}
                 ctx.count(f"e2e:behaviour:{beh['actual'][0]}:{'delete' if beh['deleted'] else 'send' if beh['called'] else 'no-call'}")
                 derived = derive_assertions(rng, beh)
-                for i in range(0, len(derived), 20):
-                    batch = derived[i:i + 20]
+                # assertions that rely on a compare directive go in a batch of their own, which is run three times
+                directed = [d for d in derived if "directive" in d[2] or "as-set" in d[2]]
+                plain = [d for d in derived if d not in directed]
+                batches = [(plain[i:i + 20], False) for i in range(0, len(plain), 20)]
+                batches += [(directed[i:i + 20], True) for i in range(0, len(directed), 20)]
+                for batch, repeat in batches:
                     tcs = [dict(frag, variant=True, label=f"{lab} #{j}") for j, (frag, _, lab) in enumerate(batch)]
                     try:
-                        res, rec, ft = loop.run_until_complete(run_tests(fn, tcs))
+                        res, rec, ft, later = loop.run_until_complete(run_tests(fn, tcs, repeat=repeat))
                     except Exception as ex:
                         for frag, truth, lab in batch:
                             yield ({"kind": "e2e", "function": fn, "testCase": frag, "label": lab}, truth, 2, lab, None, repr(ex))
@@ -1157,9 +1297,19 @@ def e2e_cases(ctx: Ctx):
                         a2 = rec.apis[j]
                         obs = {"actual": obs_outcome(rec.results[j]), "mat": copy.deepcopy(a2.materialized),
                                "called": a2._api_called, "deleted": a2._delete_called}
-                        vcase = {"kind": "verdict", "assert": model_assert(frag, ft.test_cases[j]), "obs": obs}
-                        yield ({"kind": "e2e", "function": fn, "testCase": frag, "label": lab}, truth,
-                               1 if tr.test_pass else 0, lab, vcase, None)
+                        # the model is given the assertion as written, not the prepared object after the runs
+                        fresh = {"return": frag.get("expectReturn"), "resource": frag.get("expectResource")}
+                        ma = model_assert(frag, ft.test_cases[j])
+                        if ma[0] in fresh and fresh[ma[0]] is not None:
+                            ma = [ma[0], copy.deepcopy(fresh[ma[0]])]
+                        vcase = {"kind": "verdict", "assert": ma, "obs": obs}
+                        case = {"kind": "e2e", "function": fn, "testCase": frag, "label": lab}
+                        yield (case, truth, 1 if tr.test_pass else 0, lab, vcase, None)
+                        for nrun, lres in enumerate(later, start=2):
+                            ctx.count("e2e:re-run-verdicts")
+                            if j < len(lres.test_results):
+                                again = 1 if lres.test_results[j].test_pass else 0
+                                yield (dict(case, run=nrun), truth, again, f"{lab}@run{nrun}", None, None)
             finally:
                 reset_koreo()
     finally:
@@ -1172,6 +1322,7 @@ def e2e_cases(ctx: Ctx):
 
 def unit_observe(case):
     k = case["kind"]
+    PURITY.clear()
     if k == "match":
         return run_match(case["t"], case["a"], case.get("as_set", False))
     if k == "strip":
@@ -1198,6 +1349,17 @@ def term_of(case, obs):
 def unit_oracle(case, truth, obs):
     """None, or (signature, what)"""
     k = case["kind"]
+    if k in ("match", "verdict") and PURITY:
+        # the verdict is a function of the assertion and the behaviour: asking again with the very same objects
+        # gives the same answer, and asking does not rewrite the assertion (a prepared FunctionTest is kept and re-run)
+        what_fn = "_validate_match" if k == "match" else f"_validate_{case['assert'][0]}_match"
+        if PURITY.get("expected_changed"):
+            return (f"{k}: the comparison modifies the expected object", f"{what_fn} changed the `expected` object it was given")
+        if PURITY.get("actual_changed"):
+            return (f"{k}: the comparison modifies the actual object", f"{what_fn} changed the actual value it was given")
+        if PURITY.get("again") != obs:
+            return (f"{k}: second call with the same objects gives another verdict",
+                    f"{what_fn} answered {obs} and then {PURITY.get('again')} for the same expected and actual objects")
     if truth is None:
         return None
     if k == "match":
@@ -1359,16 +1521,20 @@ def run(ctx: Ctx):
     # ---- end to end
     for case, truth, passed, lab, vcase, err in e2e_cases(ctx):
         ctx.count(f"e2e:{lab.split('-')[0]}:{'pass' if passed == 1 else 'fail' if passed == 0 else 'raise'}")
-        ctx.count(f"e2e:label:{lab}")
+        ctx.count(f"e2e:label:{lab.split('@')[0]}")
         ctx.note_case({"testCase": case["testCase"], "intent": case["function"]["intent"]}, True)
         if passed == 2:
             ctx.fail(Failure(signature=f"e2e: run raises ({lab})", what=f"running the FunctionTest raised {err}", case=case))
             continue
         if bool(passed) != truth:
-            sig = (f"e2e: truthful {lab.split('-')[0]} assertion fails" if truth
-                   else f"e2e: deviation passes ({lab})")
-            ctx.fail(Failure(signature=sig, what=("the assertion derived from the Function's real behaviour does not pass"
-                                                  if truth else f"a single deviation ({lab}) of the truthful assertion still passes"),
+            base = lab.split("@")[0]
+            sig = (f"e2e: truthful {base.split('-')[0]} assertion fails" if truth
+                   else f"e2e: deviation passes ({base})")
+            if case.get("run"):
+                sig += " when the same prepared FunctionTest is run again"
+            ctx.fail(Failure(signature=sig, what=(("the assertion derived from the Function's real behaviour does not pass"
+                                                   if truth else f"a single deviation ({base}) of the truthful assertion still passes")
+                                                  + (f" (run {case['run']} of the same prepared FunctionTest object)" if case.get("run") else "")),
                              case=case, observed={"test_pass": bool(passed), "behaviour": vcase["obs"] if vcase else None},
                              expected={"test_pass": truth}))
         if vcase is not None:
@@ -1393,7 +1559,10 @@ def replay(ctx: Ctx, data):
             fn = case["function"]
             reset_koreo()
             loop.run_until_complete(prepare_fut(fn))
-            res, rec, ft = loop.run_until_complete(run_tests(fn, [dict(case["testCase"], variant=True)]))
+            res, rec, ft, later = loop.run_until_complete(
+                run_tests(fn, [dict(case["testCase"], variant=True)], repeat=bool(case.get("run"))))
+            if case.get("run"):
+                res = later[case["run"] - 2]
             passed = res.test_results[0].test_pass
             want = data.get("expected", {}).get("test_pass")
             ctx.note_case(case, True)
